@@ -3,6 +3,7 @@ compile-time literal macros, judged by hand-written recognisers of the CNB spec 
 import itertools
 import json
 import os
+import zlib
 import shutil
 import subprocess
 import threading
@@ -264,7 +265,8 @@ def shard_run(arg):
     (a process that only ever parses one type would hide state shared between the types)."""
     work = arg
     sh = vp.Shard()
-    mon = vp.Mon("parse")
+    # (every second executor has a stderr that cannot be written to: parsing has nothing to say there)
+    mon = vp.Mon("parse", stderr_full=zlib.crc32(repr([(ty, len(items)) for ty, items in work]).encode()) % 2 == 0)
     try:
         pos = {ty: 0 for ty, _ in work}
         live = True
